@@ -19,7 +19,7 @@ tvars == <<tabs, l0, ranges, busy, prio, job, nextId, nextMv, l, bad>>
 Ev == Trace[l]
 
 SetOf(s) == {s[i] : i \in DOMAIN s}
-Tab(t) == [id |-> t.id, lvl |-> t.lvl, lo |-> t.lo, hi |-> t.hi, mv |-> t.mv, w |-> t.w]
+Tab(t) == [id |-> t.id, lvl |-> t.lvl, lo |-> t.lo, hi |-> t.hi, mv |-> t.mv, sv |-> t.sv, w |-> t.w]
 LoggedTabs == {Tab(t) : t \in SetOf(Ev.tabs)}
 LoggedRange(r) == IF r = <<-1, -1>> THEN Inf ELSE IF r = <<0, 0>> THEN Empty ELSE r
 LoggedRanges == [lv \in Levels |-> [i \in DOMAIN Ev.ranges[lv + 1] |-> LoggedRange(Ev.ranges[lv + 1][i])]]
